@@ -236,6 +236,13 @@ func latVariants() map[string]latVariant {
 			defer func() { l.shift = old }()
 			return model3d.MarchingCubesFilter(l, geomFilter3(l), 1), 0, nil
 		}, nil},
+		{"MCFilterGeomHi", func(l *latticeSolid3, _ *rand.Rand) (*model3d.Mesh, int, *model3d.CoordMap[model3d.Coord3D]) {
+			// ... and just above them
+			old := l.shift
+			l.shift = 2047.0 / 2048
+			defer func() { l.shift = old }()
+			return model3d.MarchingCubesFilter(l, geomFilter3(l), 1), 0, nil
+		}, nil},
 	}
 	out := map[string]latVariant{}
 	for _, v := range vs {
@@ -317,8 +324,12 @@ func satelliteSolid(rng *rand.Rand, n int) *latticeSolid3 {
 	for k := 0; k < 1+rng.Intn(3); k++ {
 		p := [3]int{1 + rng.Intn(n), 1 + rng.Intn(n), 1 + rng.Intn(n)}
 		if k == 0 {
-			// the first one far from the block on some axis
-			p[rng.Intn(3)] = n - rng.Intn(4)
+			// the first one at a chosen distance from the block on some axis
+			a := rng.Intn(3)
+			p[a] = lo[a] + sz[a] + 2 + rng.Intn(n)
+			if p[a] > n {
+				p[a] = n - rng.Intn(3)
+			}
 		}
 		axis, length := rng.Intn(3), 1+rng.Intn(2)
 		for i := 0; i < length && p[axis] <= n; i++ {
@@ -327,6 +338,39 @@ func satelliteSolid(rng *rand.Rand, n int) *latticeSolid3 {
 		}
 	}
 	return l
+}
+
+// alignedSolids: boxes with one face on every lattice plane in turn (so that whatever
+// planes the block splitting chooses, some solid has a face exactly there and nothing
+// else in the neighbouring block).
+func alignedSolids(rng *rand.Rand, n int, f func(*latticeSolid3)) {
+	for a := 0; a < 3; a++ {
+		for k := 2; k <= n; k++ {
+			for _, up := range []bool{true, false} {
+				l := newLatticeSolid3(n, n, n, 0)
+				var lo, hi [3]int
+				for b := 0; b < 3; b++ {
+					lo[b] = 2 + rng.Intn(n/2-1)
+					hi[b] = n/2 + 1 + rng.Intn(n/2-1)
+				}
+				if up {
+					lo[a], hi[a] = k, k+rng.Intn(3)
+				} else {
+					lo[a], hi[a] = k-rng.Intn(3), k
+				}
+				for z := lo[2]; z <= hi[2]; z++ {
+					for y := lo[1]; y <= hi[1]; y++ {
+						for x := lo[0]; x <= hi[0]; x++ {
+							if x >= 1 && y >= 1 && z >= 1 && x <= n && y <= n && z <= n {
+								l.inside[x-1+n*(y-1+n*(z-1))] = true
+							}
+						}
+					}
+				}
+				f(l)
+			}
+		}
+	}
 }
 
 func init() {
@@ -396,6 +440,8 @@ func init() {
 				for i := 0; i < atoi(f[2]); i++ {
 					emit(blockySolid(rng, n, 4), f[3], f[4])
 				}
+			case "aligned":
+				alignedSolids(rng, atoi(f[1]), func(l *latticeSolid3) { emit(l, f[2], f[3]) })
 			case "sat":
 				n := atoi(f[1])
 				for i := 0; i < atoi(f[2]); i++ {
